@@ -1050,6 +1050,7 @@ func init() {
 		ID: "C19", Title: "FAI index and File return exactly the requested subsequence", Level: "other",
 		Rules: []RuleDef{
 			{Name: "SCAN-LIMIT", What: "fai.NewIndex's line scanner has its token limit raised before the first Scan: a sequence written on one line of 64 KiB or more is a well-formed FASTA (the unchanged tree refused it; repaired f9b9f59)", Floor: 1, Run: ruleScanLimit([]string{"fai"})},
+			{Name: "CSV-FIELDS", What: "ReadFrom asks encoding/csv for exactly the five columns it indexes (shared with C11)", Floor: 1, Run: ruleCSVFields},
 			{Name: "COL-FAI", What: "WriteTo's columns and ReadFrom's columns are the same fields in the same order and base; csv configuration; quoting", Floor: 8, Run: ruleColFai},
 			{Name: "CUR-FAI", What: "NewIndex: every way round the scan loop adds the raw line length to offset once; Start/BytesPerLine use raw lengths, BasesPerLine/Length trimmed lengths; one assignment per line", Floor: 7, Run: ruleCurFai},
 			{Name: "GEOM-ACCEPT", What: "ReadFrom's acceptance test, over every ordering of the four numeric columns: accepts all geometries NewIndex produces, rejects those Seq.Read cannot survive; NewIndex accepts every well-formed sequence-line shape", Floor: 3, Run: func(c *Ctx, r *Rep, tier string) { ruleGeomAccept(c, r, tier); ruleSeqLineAccept(c, r, tier) }},
